@@ -57,3 +57,20 @@ Example chain_example :
   let buf := [71;69;84;32;47;120;32;72;84;84;80;47;49;46;49;13;10;65;58;32;98;13;10;13;10]%N in
   req_slices (ref_request config_default 4 buf) = [Sub 0 [71;69;84]; Sub 4 [47;120]; Sub 17 [65]; Sub 20 [98]]%N.
 Proof. vm_compute. reflexivity. Qed.
+
+(* ---- static half: the public signatures that carry a lifetime are the reviewed ones ---- *)
+From HV Require Import Lifetimes.
+From HV.Generated Require Import Sigs.
+
+Theorem public_lifetimes_as_reviewed : lifetimes_check = true.
+Proof. vm_compute. reflexivity. Qed.
+Print Assumptions public_lifetimes_as_reviewed.
+
+Theorem every_lifetime_signature_is_reviewed : forall s, In s crate_sigs -> has_quote (snd s) = true ->
+  exists e, In e lifetime_sigs /\ sig_eqb s e = true.
+Proof.
+  intros s Hs Hq. pose proof public_lifetimes_as_reviewed as H. unfold lifetimes_check in H.
+  apply andb_prop in H as [H _]. rewrite forallb_forall in H. specialize (H s Hs). rewrite Hq in H. cbn [negb orb] in H.
+  apply existsb_exists in H. exact H.
+Qed.
+Print Assumptions every_lifetime_signature_is_reviewed.
